@@ -634,7 +634,7 @@ func runC09(c *Ctx) {
 	for def := ref.Mode(0); def < ref.NumModes; def++ {
 		c.Parallel("from", def, func(sh *mon.Shard, r *gen.RNG) {
 			j := &floatJudge{ctx: c, sh: sh}
-			n := c.N(6000, 150000)
+			n := c.N(30000, 300000)
 			if def != ref.NearestEven {
 				n /= 4
 			}
@@ -649,7 +649,7 @@ func runC09(c *Ctx) {
 	}
 	c.Parallel("to", ref.NearestEven, func(sh *mon.Shard, r *gen.RNG) {
 		j := &floatJudge{ctx: c, sh: sh}
-		n := c.N(8000, 200000)
+		n := c.N(40000, 400000)
 		for i := 0; i < n; i++ {
 			b := genDecimalForFloat(r)
 			j.judgeToFloat(b, "")
